@@ -341,4 +341,181 @@ theorem Inv.fmp4Write {st : State} (h : Inv st) (ti : Nat) (ra changed : Bool) (
     · obtain ⟨e1, e2⟩ := hA.fmp4Emit ti ra changed { smp with dts := smp.dts + toTs fmp4StartDTS (st.tcfg ti).clockRate } (by assumption) (st.tcfg ti).clockRate
       exact ⟨e1, ⟨e2.cfg, e2.len, e2.win⟩⟩
 
+/-! ### write, run -/
+
+theorem paramsStep_fields (st : State) (ti par : Nat) (ra : Bool) :
+    (paramsStep st ti par ra).1.cfg = st.cfg ∧ (paramsStep st ti par ra).1.streams = st.streams ∧
+    (paramsStep st ti par ra).1.paths = st.paths ∧ (paramsStep st ti par ra).1.files = st.files := by
+  unfold paramsStep
+  simp only []
+  split <;> split <;> exact ⟨rfl, rfl, rfl, rfl⟩
+
+/-- first segment / rotation decision of the MPEG-TS front ends, condition abstracted -/
+def tsRotate (st : State) (c : Seg → Prop) [∀ g, Decidable (c g)] (nd ntp : Int) : State :=
+  match (st.stream 0).nextSegment with
+  | none => createFirstSegment st nd ntp
+  | some seg => if c seg then rotateSegments st nd ntp false else st
+
+theorem leadIdx_ts {cfg : Cfg} (hv : cfg.variant = .mpegts) : leadIdx cfg = 0 := by simp [leadIdx, hv]
+
+theorem Inv.tsRotate {st : State} (h : Inv st) (hv : st.cfg.variant = .mpegts) (c : Seg → Prop)
+    [∀ g, Decidable (c g)] (nd ntp : Int) :
+    Inv (Hls.Muxer.tsRotate st c nd ntp) ∧ Step1 st (Hls.Muxer.tsRotate st c nd ntp) := by
+  unfold Hls.Muxer.tsRotate
+  split
+  · rename_i hn
+    have hcl := h.closed_all (by rw [leadIdx_ts hv]; exact hn)
+    obtain ⟨i1, i2, i3, i4⟩ := h.createFirstSegment hcl nd ntp
+    refine ⟨i1, SameWin.step1 ⟨i2, i3, fun i hi => ?_⟩⟩
+    rw [i4 i hi, core_firstSegS]; exact ⟨rfl, rfl⟩
+  · split
+    · obtain ⟨i1, i2, i3, i4⟩ := h.rotateSegments nd ntp false
+      exact ⟨i1, Step1.of_rot (SameWin.refl st) i2 i3 i4⟩
+    · exact ⟨h, (SameWin.refl st).step1⟩
+
+theorem Inv.tsFront {st : State} (h : Inv st) (hv : st.cfg.variant = .mpegts) (c : Seg → Prop)
+    [∀ g, Decidable (c g)] (nd ntp : Int) (u : TsUnit) (size : Nat) (e : Option Int) (cnt : Bool) :
+    Inv (Hls.Muxer.tsWrite (Hls.Muxer.tsRotate st c nd ntp) u size e cnt).1 ∧
+      Step1 st (Hls.Muxer.tsWrite (Hls.Muxer.tsRotate st c nd ntp) u size e cnt).1 := by
+  obtain ⟨a1, a2⟩ := h.tsRotate hv c nd ntp
+  obtain ⟨b1, b2⟩ := a1.tsWrite u size e cnt
+  exact ⟨b1, a2.after b2⟩
+
+theorem Inv.fmp4WriteMany {st : State} (h : Inv st) (ti : Nat) (l : List Sample) :
+    Inv (fmp4WriteMany st ti l).1 ∧ Evolves st (fmp4WriteMany st ti l).1 := by
+  induction l generalizing st with
+  | nil => exact ⟨h, Evolves.refl st⟩
+  | cons s rest ih =>
+    unfold Hls.Muxer.fmp4WriteMany
+    obtain ⟨a1, a2⟩ := h.fmp4Write ti true false s
+    generalize Hls.Muxer.fmp4Write st ti true false s = r at a1 a2
+    obtain ⟨st1, res⟩ := r
+    cases res with
+    | err => exact ⟨a1, a2.evolves⟩
+    | ok =>
+      simp only at a1 a2 ⊢
+      obtain ⟨b1, b2⟩ := ih a1
+      exact ⟨b1, a2.evolves.trans b2⟩
+
+/-- ops that go through at most one `fmp4WriteSample` / one MPEG-TS write -/
+def singleOp (st : State) (op : WriteOp) : Prop :=
+  (st.tcfg op.track).codec.isVideo = true ∨ (st.cfg.variant = .mpegts ∧ (st.tcfg op.track).codec = .aac)
+
+theorem Step1.before {a b c : State} (h1 : SameWin a b) (h2 : Step1 b c) : Step1 a c := by
+  refine ⟨h2.cfg.trans h1.cfg, h2.len.trans h1.len, fun i hi => ?_⟩
+  have w1 := h1.win i hi
+  rcases h2.win i (h1.len ▸ hi) with w | ⟨d, c0, w2, w3⟩
+  · exact Or.inl (w1.trans w)
+  · exact Or.inr ⟨d, c0, w1.trans w2, by rw [← h1.cfg]; exact w3⟩
+
+/-- the fMP4 video front ends after parameter bookkeeping -/
+theorem Inv.videoFmp4 {st stP : State} (hP : Inv stP) (hPw : SameWin st stP) (ti : Nat) (t : TrackSt)
+    (ra changed : Bool) (smp : Sample) :
+    Inv (Hls.Muxer.fmp4Write (stP.setTrack ti t) ti ra changed smp).1 ∧
+      Step1 st (Hls.Muxer.fmp4Write (stP.setTrack ti t) ti ra changed smp).1 := by
+  have hX : Inv (stP.setTrack ti t) := hP.of_fields rfl rfl rfl rfl
+  obtain ⟨a1, a2⟩ := hX.fmp4Write ti ra changed smp
+  have hw : SameWin st (stP.setTrack ti t) := hPw.trans (SameWin.of_streams rfl rfl)
+  exact ⟨a1, Step1.before hw a2⟩
+
+/-- the H264 front end after the DTS extractor: MPEG-TS write or `fmp4WriteSample` -/
+theorem Inv.h264Tail {st X : State} (hX : Inv X) (hXw : SameWin st X) (c : Seg → Prop) [∀ g, Decidable (c g)]
+    (nd ntp : Int) (u : TsUnit) (size : Nat) (e : Option Int) (cnt : Bool) (ti : Nat) (ra changed : Bool)
+    (smp : Sample) :
+    Inv (if X.cfg.variant = .mpegts then Hls.Muxer.tsWrite (Hls.Muxer.tsRotate X c nd ntp) u size e cnt
+         else Hls.Muxer.fmp4Write X ti ra changed smp).1 ∧
+    Step1 st (if X.cfg.variant = .mpegts then Hls.Muxer.tsWrite (Hls.Muxer.tsRotate X c nd ntp) u size e cnt
+         else Hls.Muxer.fmp4Write X ti ra changed smp).1 := by
+  split
+  · rename_i hv
+    obtain ⟨a1, a2⟩ := hX.tsFront hv c nd ntp u size e cnt
+    exact ⟨a1, Step1.before hXw a2⟩
+  · obtain ⟨a1, a2⟩ := hX.fmp4Write ti ra changed smp
+    exact ⟨a1, Step1.before hXw a2⟩
+
+theorem fieldsOK {st stP st' : State} (hP : Inv stP) (hPw : SameWin st stP) (h1 : st'.cfg = stP.cfg)
+    (h2 : st'.streams = stP.streams) (h3 : st'.paths = stP.paths) (h4 : st'.files = stP.files) :
+    Inv st' ∧ Step1 st st' :=
+  ⟨hP.of_fields h1 h2 h3 h4, (hPw.trans (SameWin.of_streams h1 h2)).step1⟩
+
+theorem Inv.write {st : State} (h : Inv st) (op : WriteOp) :
+    Inv (write st op).1 ∧ Evolves st (write st op).1 ∧ (singleOp st op → Step1 st (write st op).1) := by
+  have conv : ∀ {st' : State}, Inv st' ∧ Step1 st st' → Inv st' ∧ Evolves st st' ∧ (singleOp st op → Step1 st st') :=
+    fun hh => ⟨hh.1, hh.2.evolves, fun _ => hh.2⟩
+  have hp := paramsStep_fields st op.track op.par op.ra
+  have hP : Inv (paramsStep st op.track op.par op.ra).1 := h.of_fields hp.1 hp.2.1 hp.2.2.1 hp.2.2.2
+  have hPw : SameWin st (paramsStep st op.track op.par op.ra).1 := SameWin.of_streams hp.1 hp.2.1
+  unfold Hls.Muxer.write
+  simp only []
+  generalize paramsStep st op.track op.par op.ra = ps at hP hPw ⊢
+  obtain ⟨stP, changed⟩ := ps
+  simp only at hP hPw ⊢
+  clear hp
+  split
+  · -- h264
+    split
+    · apply conv
+      split <;> exact fieldsOK h (SameWin.refl st) rfl rfl rfl rfl
+    · split
+      · exact conv ⟨hP, hPw.step1⟩
+      · split
+        · exact conv (fieldsOK hP hPw rfl rfl rfl rfl)
+        · have hXw : ∀ t1 t2, SameWin st ((stP.setTrack op.track t1).setTrack op.track t2) :=
+            fun _ _ => hPw.trans (SameWin.of_streams rfl rfl)
+          have hX : ∀ t1 t2, Inv ((stP.setTrack op.track t1).setTrack op.track t2) :=
+            fun _ _ => hP.of_fields rfl rfl rfl rfl
+          split
+          · split
+            · exact conv (fieldsOK hP hPw rfl rfl rfl rfl)
+            · exact conv (Inv.h264Tail (hX _ _) (hXw _ _) _ _ _ _ _ _ _ _ _ _ _)
+          · simp only [Bool.false_eq_true, if_false]
+            exact conv (Inv.h264Tail (hX _ _) (hXw _ _) _ _ _ _ _ _ _ _ _ _ _)
+  · -- h265
+    split
+    · exact conv ⟨hP, hPw.step1⟩
+    · exact conv (Inv.videoFmp4 hP hPw _ _ _ _ _)
+  · -- vp9
+    split
+    · exact conv ⟨hP, hPw.step1⟩
+    · exact conv (Inv.videoFmp4 hP hPw _ _ _ _ _)
+  · -- av1
+    split
+    · exact conv ⟨hP, hPw.step1⟩
+    · exact conv (Inv.videoFmp4 hP hPw _ _ _ _ _)
+  · -- opus
+    rename_i hcodec
+    obtain ⟨a1, a2⟩ := h.fmp4WriteMany op.track (buildOpus op.pays op.sizes op.durs op.pts op.ntp)
+    refine ⟨a1, a2, fun hs => ?_⟩
+    rcases hs with hv | ⟨_, hc⟩
+    · rw [hcodec] at hv; simp [Codec.isVideo] at hv
+    · rw [hcodec] at hc; cases hc
+  · -- aac
+    rename_i hcodec
+    split
+    · rename_i hv
+      apply conv
+      split
+      · exact ⟨h, (SameWin.refl st).step1⟩
+      · cases hl : st.isLeadingTrack op.track
+        · simp only [Bool.false_eq_true, ↓reduceIte]
+          exact (fun x => ⟨x.1, x.2.step1⟩) (h.tsWrite _ _ _ _)
+        · simp only [↓reduceIte]
+          exact h.tsFront hv _ _ _ _ _ _ _
+    · rename_i hv
+      obtain ⟨a1, a2⟩ := h.fmp4WriteMany op.track
+        (buildAac op.pts op.ntp (st.tcfg op.track).clockRate (st.tcfg op.track).sampleRate 0 op.pays op.sizes)
+      refine ⟨a1, a2, fun hs => ?_⟩
+      rcases hs with hv' | ⟨hv', _⟩
+      · rw [hcodec] at hv'; simp [Codec.isVideo] at hv'
+      · exact absurd hv' hv
+
+theorem Inv.run {st : State} (h : Inv st) (ops : List WriteOp) : Inv (run st ops) ∧ Evolves st (run st ops) := by
+  induction ops generalizing st with
+  | nil => exact ⟨h, Evolves.refl st⟩
+  | cons op rest ih =>
+    unfold Hls.Muxer.run
+    obtain ⟨a1, a2, _⟩ := h.write op
+    obtain ⟨b1, b2⟩ := ih a1
+    exact ⟨b1, a2.trans b2⟩
+
 end Hls.Muxer
